@@ -40,6 +40,8 @@ def _slot_defaults():
 def _impl_table(rows, th):
     from bycycle.burst import detect_bursts_cycles
     df = pd.DataFrame({f: np.array([r[i] for r in rows], dtype=float) for i, f in enumerate(FEATS)})
+    if len(rows) % 3 == 1:       # row labels that are not positions (a window of a larger table, filtered rows)
+        df.index = np.arange(len(rows))[::-1] * 2 + 5
     try:
         with warnings.catch_warnings():
             warnings.simplefilter('ignore')
@@ -52,8 +54,12 @@ def _impl_signal(c):
     from bycycle.features import compute_features
     with warnings.catch_warnings():
         warnings.simplefilter('ignore')
-        df = compute_features(proto.hex2arr(c['sig']), c['fs'], tuple(c['f_range']), center_extrema=c['center'],
-                              burst_method='cycles', threshold_kwargs=dict(c['th']))
+        th = dict(c['th']); snap = repr(th)
+        df0 = compute_features(proto.hex2arr(c['sig']), c['fs'], tuple(c['f_range']), center_extrema=c['center'], burst_method='cycles', threshold_kwargs=th)
+        # the same thresholds dictionary again (a session / an object re-using its settings)
+        df = compute_features(proto.hex2arr(c['sig']), c['fs'], tuple(c['f_range']), center_extrema=c['center'], burst_method='cycles', threshold_kwargs=th)
+        if repr(th) != snap or not df.equals(df0):
+            raise AssertionError('second call with the same thresholds dictionary differs')
     rows = [[float(df[f].values[i]) for f in FEATS] for i in range(len(df))]
     return rows, ['ok', proto.enc_bits(list(df['is_burst'].values.astype(bool)))]
 
